@@ -1,1 +1,10 @@
-//! harness crate h_aggregator (binaries in src/bin)
+//! harness crate h_aggregator (binaries in src/bin): C14 / C15 drive the real leader
+//! aggregator (the repository's own integration-test driver `RuntimeTester`, path-included so it
+//! follows the working tree) with PRNG event histories and compare every step with the Coq model.
+#![allow(unexpected_cfgs)]
+
+#[path = "/repo/mithril-aggregator/tests/test_extensions/mod.rs"]
+#[macro_use]
+pub mod test_extensions;
+
+pub mod drv;
